@@ -371,7 +371,7 @@ impl<T: Debug + Eq + PartialEq + Clone + Default> TaggedLine<T> {
             cwid(final(self).v@) == cwid(old(self).v@) + sw(ts.s@), //@w @C02 @C04 @C12 #push_str_cwid
             old(self).wf() ==> final(self).wf(), //@w @C02 @C04 @C12 #push_str_wf
             final(self).len == old(self).len + sw(ts.s@), //@w @C02 @C04 @C12 #push_str_len
-            flat(final(self).v@) =~= flat(old(self).v@) + flat_str(ts.s@, ts.tag), //@w @C03 @C09 @C14 #push_str_flat
+            flat(final(self).v@) =~= flat(old(self).v@) + flat_str(ts.s@, ts.tag), //@w @C03 @C04 @C09 @C14 #push_str_flat
             all_some(old(self).v@) && str_some(ts.s@) ==> all_some(final(self).v@), //@w @C01 #push_str_some
             final(self).v@.len() >= old(self).v@.len(), //@w
     {
@@ -411,7 +411,7 @@ impl<T: Debug + Eq + PartialEq + Clone + Default> TaggedLine<T> {
             cwid(final(self).v@) == cwid(old(self).v@) + ew(tle), //@w @C02 @C04 @C12 #push_cwid
             old(self).wf() ==> final(self).wf(), //@w @C02 @C04 @C12 #push_wf
             final(self).len == old(self).len + ew(tle), //@w @C02 @C04 @C12 @C14 #push_len
-            flat(final(self).v@) =~= flat(old(self).v@) + flat_elt(tle), //@w @C03 @C09 @C14 #push_flat
+            flat(final(self).v@) =~= flat(old(self).v@) + flat_elt(tle), //@w @C03 @C04 @C09 @C14 #push_flat
             all_some(old(self).v@) && elt_some(tle) ==> all_some(final(self).v@), //@w @C01 #push_some
             final(self).v@.len() >= old(self).v@.len(), //@w
     {
@@ -433,7 +433,7 @@ impl<T: Debug + Eq + PartialEq + Clone + Default> TaggedLine<T> {
             cwid(final(self).v@) == cwid(old(self).v@) + len, //@w @C02 @C04 @C12 #push_ws_cwid
             old(self).wf() ==> final(self).wf(), //@w @C02 @C04 @C12 #push_ws_wf
             final(self).len == old(self).len + len, //@w @C02 @C04 @C12 @C15 #push_ws_len
-            flat(final(self).v@) =~= flat(old(self).v@) + flat_str(spaces(len as nat), *tag), //@w @C03 @C15 @C09 #push_ws_flat
+            flat(final(self).v@) =~= flat(old(self).v@) + flat_str(spaces(len as nat), *tag), //@w @C03 @C04 @C09 @C15 #push_ws_flat
             all_some(old(self).v@) ==> all_some(final(self).v@), //@w @C01
     {
         use self::TaggedLineElement::Str;
@@ -457,7 +457,7 @@ impl<T: Debug + Eq + PartialEq + Clone + Default> TaggedLine<T> {
             cwid(final(self).v@) == cwid(old(self).v@) + cwn(c), //@w @C02 @C04 @C12 #push_char_cwid
             old(self).wf() ==> final(self).wf(), //@w @C02 @C04 @C12 #push_char_wf
             final(self).len == old(self).len + cwn(c), //@w @C02 @C04 @C12 #push_char_len
-            flat(final(self).v@) =~= flat(old(self).v@).push(CItem::Ch(c, *tag)), //@w @C03 @C09 @C12 #push_char_flat
+            flat(final(self).v@) =~= flat(old(self).v@).push(CItem::Ch(c, *tag)), //@w @C03 @C04 @C09 @C12 #push_char_flat
             cw(c).is_some() && all_some(old(self).v@) ==> all_some(final(self).v@), //@w @C01 #push_char_some
             final(self).v@.len() > 0, //@w
     {
@@ -501,7 +501,7 @@ impl<T: Debug + Eq + PartialEq + Clone + Default> TaggedLine<T> {
             cwid(final(self).v@) == cwid(old(self).v@) + sw(ts.s@), //@w @C02 #insert_front_cwid
             old(self).wf() ==> final(self).wf(), //@w @C02 #insert_front_wf
             final(self).len == old(self).len + sw(ts.s@), //@w @C02 @C07 #insert_front_len
-            flat(final(self).v@) =~= flat_str(ts.s@, ts.tag) + flat(old(self).v@), //@w @C03 @C07 @C09 #insert_front_flat
+            flat(final(self).v@) =~= flat_str(ts.s@, ts.tag) + flat(old(self).v@), //@w @C03 @C04 @C07 @C09 #insert_front_flat
     {
         use self::TaggedLineElement::Str;
 
@@ -536,7 +536,7 @@ impl<T: Debug + Eq + PartialEq + Clone + Default> TaggedLine<T> {
         ensures //@w
             final(self).wf(), //@w @C02 @C04 @C12 #consume_wf
             final(self).len == old(self).len + cwid(old(tl).v@), //@w @C02 @C04 @C12 #consume_len
-            flat(final(self).v@) =~= flat(old(self).v@) + flat(old(tl).v@), //@w @C03 @C09 @C14 #consume_flat
+            flat(final(self).v@) =~= flat(old(self).v@) + flat(old(tl).v@), //@w @C03 @C04 @C09 @C14 #consume_flat
             all_some(old(self).v@) && all_some(old(tl).v@) ==> all_some(final(self).v@), //@w @C01 #consume_some
             final(tl).v@.len() == 0, //@w @C03 #consume_drains
             final(tl).len == old(tl).len, //@w
@@ -858,10 +858,10 @@ impl<T: Clone + Eq + Debug + Default> WrappedBlock<T> {
             !no_str(old(self).word.v@) && old(self).wslen + old(self).wordlen > old(self).width - old(self).line.len && ws_mode.do_wrap_spec() && r.is_ok() ==> //@w @C04 #fw_wraps
                 final(self).wslen == 0 && final(self).spacetag.is_none() //@w @C04 #fw_wraps
                 && (!no_str(old(self).line.v@) ==> final(self).text@.len() >= old(self).text@.len() + 1 && final(self).text@[old(self).text@.len() as int].len == (if old(self).pad_blocks { old(self).width } else { old(self).line.len })), //@w @C04 #fw_wraps
-            !no_str(old(self).word.v@) && old(self).wslen + old(self).wordlen > old(self).width - old(self).line.len && ws_mode == WhiteSpace::Pre && r.is_ok() ==> //@w @C12 #fw_pre_wrapped
-                final(self).pre_wrapped, //@w @C12 #fw_pre_wrapped
-            !no_str(old(self).word.v@) && old(self).wslen + old(self).wordlen > old(self).width - old(self).line.len && ws_mode != WhiteSpace::Pre && r.is_ok() ==> //@w @C12 #fw_not_pre_wrapped
-                !final(self).pre_wrapped, //@w @C12 #fw_not_pre_wrapped
+            !no_str(old(self).word.v@) && old(self).wslen + old(self).wordlen > old(self).width - old(self).line.len && ws_mode == WhiteSpace::Pre && r.is_ok() ==> //@w @C09 @C12 #fw_pre_wrapped
+                final(self).pre_wrapped, //@w @C09 @C12 #fw_pre_wrapped
+            !no_str(old(self).word.v@) && old(self).wslen + old(self).wordlen > old(self).width - old(self).line.len && ws_mode != WhiteSpace::Pre && r.is_ok() ==> //@w @C09 @C12 #fw_not_pre_wrapped
+                !final(self).pre_wrapped, //@w @C09 @C12 #fw_not_pre_wrapped
     {
         use self::TaggedLineElement::Str;
 
@@ -946,7 +946,7 @@ impl<T: Clone + Eq + Debug + Default> WrappedBlock<T> {
                         self.text@.len() >= old(self).text@.len() + (if !no_str(old(self).line.v@) { 1int } else { 0int }), //@w
                         self.text@.take(old(self).text@.len() as int) =~= old(self).text@, //@w
                         ws_mode.do_wrap_spec() && !no_str(old(self).line.v@) ==> self.text@[old(self).text@.len() as int].len == (if old(self).pad_blocks { old(self).width } else { old(self).line.len }), //@w
-                        self.pre_wrapped == (ws_mode == WhiteSpace::Pre), //@w
+                        self.pre_wrapped == (ws_mode == WhiteSpace::Pre), //@w @C09 @C12 #fw_ws_loop_pre_flag
                         ws_mode.do_wrap_spec() ==> self.wslen == 0, //@w
                         content(self.text@, self.line.v@) =~= c0, //@w @C03 #fw_ws_loop_keeps_content
                     decreases self.wslen //@w
